@@ -17,7 +17,18 @@ import (
 )
 
 func fmtTime(t time.Time) string {
+	if ns := t.Nanosecond(); ns != 0 {
+		return fmt.Sprintf("%d.%09d@%s%s", t.Unix(), ns, t.Location().String(), t.Format("-0700"))
+	}
 	return fmt.Sprintf("%d@%s%s", t.Unix(), t.Location().String(), t.Format("-0700"))
+}
+
+// fmtDur renders a duration exactly: whole seconds, and the remainder if there is one.
+func fmtDur(d time.Duration) string {
+	if r := d % time.Second; r != 0 {
+		return fmt.Sprintf("%ds%+dns", int64(d/time.Second), int64(r))
+	}
+	return fmt.Sprintf("%ds", int64(d/time.Second))
 }
 
 func fmtTimePtr(t *time.Time) string {
@@ -77,8 +88,8 @@ func dumpTripID(id gtfs.TripID) string {
 	if id.HasStartDate || !id.StartDate.IsZero() {
 		sd = fmtTime(id.StartDate)
 	}
-	return fmt.Sprintf("{id=%q route=%q dir=%s hasST=%v st=%ds hasSD=%v sd=%s sr=%d}", id.ID, id.RouteID, id.DirectionID, id.HasStartTime,
-		int64(id.StartTime/time.Second), id.HasStartDate, sd, int32(id.ScheduleRelationship))
+	return fmt.Sprintf("{id=%q route=%q dir=%s hasST=%v st=%s hasSD=%v sd=%s sr=%d}", id.ID, id.RouteID, id.DirectionID, id.HasStartTime,
+		fmtDur(id.StartTime), id.HasStartDate, sd, int32(id.ScheduleRelationship))
 }
 
 func dumpEvent(e *gtfs.StopTimeEvent) string {
@@ -412,12 +423,12 @@ func dumpStatic(s *gtfs.Static, o staticDumpOpts) string {
 			x.Headsign, x.ShortName, x.DirectionId, x.BlockID, int32(x.WheelchairAccessible), int32(x.BikesAllowed), r.shape(x.Shape))
 		for j := range x.StopTimes {
 			st := &x.StopTimes[j]
-			fmt.Fprintf(&sb, "  StopTime[%d] trip=%s stop=%s arr=%ds dep=%ds seq=%d headsign=%q pickup=%d dropoff=%d cpickup=%d cdropoff=%d dist=%s exact=%v\n", j, r.trip(st.Trip), r.stop(st.Stop),
-				int64(st.ArrivalTime/time.Second), int64(st.DepartureTime/time.Second), st.StopSequence, st.Headsign, int32(st.PickupType), int32(st.DropOffType),
+			fmt.Fprintf(&sb, "  StopTime[%d] trip=%s stop=%s arr=%s dep=%s seq=%d headsign=%q pickup=%d dropoff=%d cpickup=%d cdropoff=%d dist=%s exact=%v\n", j, r.trip(st.Trip), r.stop(st.Stop),
+				fmtDur(st.ArrivalTime), fmtDur(st.DepartureTime), st.StopSequence, st.Headsign, int32(st.PickupType), int32(st.DropOffType),
 				int32(st.ContinuousPickup), int32(st.ContinuousDropOff), fmtF64Ptr(st.ShapeDistanceTraveled), st.ExactTimes)
 		}
 		for j, f := range x.Frequencies {
-			fmt.Fprintf(&sb, "  Frequency[%d] start=%ds end=%ds headway=%ds exact=%d\n", j, int64(f.StartTime/time.Second), int64(f.EndTime/time.Second), int64(f.Headway/time.Second), int32(f.ExactTimes))
+			fmt.Fprintf(&sb, "  Frequency[%d] start=%s end=%s headway=%s exact=%d\n", j, fmtDur(f.StartTime), fmtDur(f.EndTime), fmtDur(f.Headway), int32(f.ExactTimes))
 		}
 	}
 	for i := range s.Shapes {
